@@ -45,6 +45,10 @@ def pt_cases(draw, max_chains=8):
         cls = draw(st.sampled_from(["gibbs", "gibbs", "metropolis", "hmc"] + (["pca"] if d >= 2 else [])))
         c = {"cls": cls, "start_u": [draw(st.floats(-2, 2)) for _ in range(d)], "width_log": [draw(st.floats(-0.5, 0.5)) for _ in range(d)],
              "display_progress": draw(st.booleans())}
+        # chains may start far apart (a steep posterior, dispersed starts): log-density differences of 1e3 .. 1e7 between the rungs,
+        # i.e. exchanges that are certain (probability ratio exp(+1e5)) or impossible
+        far = draw(st.sampled_from([1.0, 1.0, 1.0, 1.0, 30.0, 300.0, 3000.0]))
+        c["start_u"] = [u * far for u in c["start_u"]]
         if cls == "hmc":
             c["hmc"] = {"eps_log": draw(st.floats(-1.5, -0.5)), "mass": "default", "mass_log": [0.0] * d, "mass_corr": 0.0, "grad": draw(st.booleans())}
         chains.append(c)
